@@ -17,6 +17,7 @@ def main():
             ov = ctx.overlay(pkg)
             e = dict(os.environ, GOFLAGS='-mod=mod', GOPROXY='off')
             e.pop('GOSUMDB', None)
+            e['GOTOOLCHAIN'] = 'auto'
             tags = 'verif'
             p = subprocess.run(['go', 'test', '-overlay', ov, '-tags', tags, '-run', '^$', '-count=1', '.'],
                                cwd=os.path.join(REPO, pkg), env=e, stdout=subprocess.PIPE, stderr=subprocess.STDOUT, text=True)
